@@ -253,4 +253,149 @@ Qed.
 Lemma voted_root_unique a1 a2 r1 r2 : In r1 evs -> In r2 evs ->
   In a1 (roots f0) -> In a2 (roots f0) -> cr a1 = cr a2 -> fc r1 a1 = true -> fc r2 a2 = true -> a1 = a2.
 Proof. intros. eapply (visible_unique f0 a1 a2 r1 r2); eauto. Qed.
+(* ---------------- the election does not err ---------------- *)
+(* a yes vote goes back to a root of the subject in frame f0 that a first-round root forkless-causes *)
+Lemma obs_quorum_split k r v : (1 <= k)%nat -> In r (roots (f0 + N.of_nat k + 1)) -> q <= yesV k r v + noV k r v.
+Proof.
+  intros Hk Hr. assert (Hf1 : 1 <= f0 + N.of_nat k) by lia.
+  pose proof (roots_sees_quorum _ _ Hf1 Hr) as HQ. unfold sees_quorum in HQ. unfold yesV, noV.
+  set (o := obsv r (f0 + N.of_nat k)) in *.
+  pose proof (wsP_incl_excl ws (voters o (fun r' => vote k r' v)) (voters o (fun r' => negb (vote k r' v)))) as IE.
+  assert (Hm : wsP ws (voters o (fun _ => true))
+               <= wsP ws (fun u => voters o (fun r' => vote k r' v) u || voters o (fun r' => negb (vote k r' v)) u)).
+  { apply wsP_mono. intros u _ Hu. apply voters_obs_elim in Hu as [r' [I' [F' [C' _]]]].
+    apply orb_true_iff. destruct (vote k r' v) eqn:E.
+    - left. apply (voters_obs_intro r _ (fun r' => vote k r' v) u r' I' F' C' E).
+    - right. apply (voters_obs_intro r _ (fun r' => negb (vote k r' v)) u r' I' F' C'). rewrite E. reflexivity. }
+  lia.
+Qed.
+
+Lemma yes_vote_has_root v : forall k r, (1 <= k)%nat -> In r (roots (f0 + N.of_nat k)) -> vote k r v = true ->
+  exists a r1, In a (roots f0) /\ cr a = v /\ In r1 (roots (f0 + 1)) /\ fc r1 a = true.
+Proof.
+  induction k as [|k IH]; intros r Hk Hr Hv; [lia|].
+  destruct k as [|k].
+  - change (vote 1 r v) with (voters (obsv r f0) (fun _ => true) v) in Hv.
+    apply voters_obs_elim in Hv as [a [Ia [Fa [Ca _]]]]. exists a, r. repeat split; auto.
+  - rewrite vote_S in Hv by lia. apply N.leb_le in Hv.
+    assert (Hr' : In r (roots (f0 + N.of_nat (S k) + 1))) by (replace (f0 + N.of_nat (S k) + 1) with (f0 + N.of_nat (S (S k))) by lia; exact Hr).
+    pose proof (obs_quorum_split (S k) r v ltac:(lia) Hr') as Hs.
+    assert (Hpos : 0 < yesV (S k) r v) by lia.
+    unfold yesV in Hpos. apply wsP_pos_ex in Hpos as [u [_ Hu]].
+    apply voters_obs_elim in Hu as [r' [I' [_ [_ V']]]]. apply (IH r'); [lia|exact I'|exact V'].
+Qed.
+
+Lemma decided_yes_has_root k r v : decides k r v true ->
+  exists a r1, In a (roots f0) /\ cr a = v /\ In r1 (roots (f0 + 1)) /\ fc r1 a = true.
+Proof.
+  intros [Hk [Hr Hq]]. assert (Hpos : 0 < yesV k r v) by lia.
+  unfold yesV in Hpos. apply wsP_pos_ex in Hpos as [u [_ Hu]].
+  apply voters_obs_elim in Hu as [r' [I' [_ [_ V']]]]. apply (yes_vote_has_root v k r'); assumption.
+Qed.
+
+(* some subject is never decided no: the first-round roots that anybody observes are unique per
+   validator (fork exclusion); each of them votes yes on subjects holding a quorum; by a weighted
+   pigeonhole some subject v collects the yes of more than 2/3 of them; every second-round root then
+   sees fewer than a third of the weight voting no, votes yes, and so does everybody later *)
+Hypothesis f0_pos : 1 <= f0.
+
+Definition obsable (r1 : X) : bool := existsb (fun r2 => fc r2 r1) (roots (f0 + 2)).
+Definition U1 (u : nat) : bool := existsb (fun r1 => Nat.eqb (cr r1) u && obsable r1) (roots (f0 + 1)).
+Definition Yv (v u : nat) : bool := existsb (fun r1 => Nat.eqb (cr r1) u && obsable r1 && vote 1 r1 v) (roots (f0 + 1)).
+Definition Nv (v u : nat) : bool := existsb (fun r1 => Nat.eqb (cr r1) u && obsable r1 && negb (vote 1 r1 v)) (roots (f0 + 1)).
+
+Lemma obsable_unique r1 r1' : In r1 (roots (f0 + 1)) -> In r1' (roots (f0 + 1)) -> cr r1 = cr r1' ->
+  obsable r1 = true -> obsable r1' = true -> r1 = r1'.
+Proof.
+  intros I1 I1' Hc O1 O1'. unfold obsable in *.
+  apply existsb_exists in O1 as [r2 [I2 F2]]. apply existsb_exists in O1' as [r2' [I2' F2']].
+  eapply (visible_unique (f0 + 1) r1 r1' r2 r2'); eauto using roots_in.
+Qed.
+
+Lemma Yv_Nv_disjoint v u : Yv v u && Nv v u = false.
+Proof.
+  destruct (Yv v u) eqn:EY; [|reflexivity]. destruct (Nv v u) eqn:EN; [|reflexivity]. exfalso.
+  unfold Yv, Nv in *. apply existsb_exists in EY as [r1 [I1 H1]]. apply existsb_exists in EN as [r1' [I1' H1']].
+  apply andb_prop in H1 as [H1 V1]. apply andb_prop in H1 as [C1 O1].
+  apply andb_prop in H1' as [H1' V1']. apply andb_prop in H1' as [C1' O1'].
+  apply Nat.eqb_eq in C1, C1'.
+  assert (r1 = r1') by (apply obsable_unique; auto; congruence). subst r1'.
+  rewrite V1 in V1'. discriminate.
+Qed.
+
+Lemma U1_quorum u : U1 u = true -> q <= wsP ws (fun v => Yv v u).
+Proof.
+  intros H. unfold U1 in H. apply existsb_exists in H as [r1 [I1 H]]. apply andb_prop in H as [C1 O1].
+  assert (HQ : sees_quorum r1 f0) by (apply roots_sees_quorum; auto).
+  unfold sees_quorum in HQ. etransitivity; [exact HQ|]. apply wsP_mono. intros v _ Hv.
+  unfold Yv. apply existsb_exists. exists r1. split; [exact I1|]. rewrite C1, O1. exact Hv.
+Qed.
+
+Lemma wsP_wsf P : wsP ws P = wsf 0 ws (fun v => if P v then 1 else 0).
+Proof. rewrite wsP_wsl. apply wsl_wsf. Qed.
+
+Lemma totalW_wsf : W = wsf 0 ws (fun _ => 1).
+Proof. unfold totalW. rewrite wsP_wsf. reflexivity. Qed.
+
+Lemma pigeon_subject : 0 < W -> exists v, (v < nv)%nat /\ wsP ws U1 * q <= W * wsP ws (fun u => Yv v u).
+Proof.
+  intros HW.
+  (* sum over u of w_u [U1 u] q  <=  sum over u of w_u * (sum over v of w_v [Yv v u]) *)
+  assert (H1 : wsf 0 ws (fun u => (if U1 u then 1 else 0) * q)
+               <= wsf 0 ws (fun u => wsf 0 ws (fun v => if Yv v u then 1 else 0))).
+  { apply wsf_le. intros u _. destruct (U1 u) eqn:E; [|lia].
+    pose proof (U1_quorum u E) as H. rewrite wsP_wsf in H. lia. }
+  rewrite wsf_fubini in H1.
+  assert (H2 : wsf 0 ws (fun u => (if U1 u then 1 else 0) * q) = wsP ws U1 * q).
+  { rewrite wsP_wsf. rewrite N.mul_comm. rewrite <- wsf_scale. apply wsf_ext. intros; lia. }
+  rewrite H2 in H1.
+  destruct (wsf_pigeon ws (fun v => W * wsP ws (fun u => Yv v u)) (wsP ws U1 * q)) as [v [Hv Hc]].
+  - rewrite <- totalW_wsf. exact HW.
+  - rewrite <- totalW_wsf.
+    assert (E : wsf 0 ws (fun v => W * wsP ws (fun u => Yv v u)) = W * wsf 0 ws (fun v => wsf 0 ws (fun u => if Yv v u then 1 else 0))).
+    { rewrite <- wsf_scale. apply wsf_ext. intros v _. rewrite wsP_wsf. reflexivity. }
+    rewrite E. nia.
+  - exists v. split; [exact Hv|exact Hc].
+Qed.
+
+Theorem exists_never_no : (0 < nv)%nat -> exists v, (v < nv)%nat /\ forall k r, ~ decides k r v false.
+Proof.
+  intros Hnv. destruct (N.eq_dec W 0) as [HW0|HW0].
+  - (* no weight at all: nothing is ever decided *)
+    exists 0%nat. split; [exact Hnv|]. intros k r [_ [_ Hq]].
+    pose proof (wsP_le_total ws (voters (obsv r (f0 + N.of_nat k)) (fun r' => negb (vote k r' 0%nat)))) as H.
+    unfold noV in Hq. lia.
+  - destruct pigeon_subject as [v [Hv Hp]]; [lia|]. exists v. split; [exact Hv|].
+    set (R := wsP ws U1) in *. set (YES := wsP ws (fun u => Yv v u)) in *. set (NO := wsP ws (fun u => Nv v u)).
+    assert (HR : R <= W) by apply wsP_le_total.
+    assert (HYN : YES + NO <= R).
+    { pose proof (wsP_incl_excl ws (fun u => Yv v u) (fun u => Nv v u)) as IE.
+      assert (Hz : wsP ws (fun u => Yv v u && Nv v u) = 0) by (apply wsP_zero; intros; apply Yv_Nv_disjoint).
+      assert (Hu : wsP ws (fun u => Yv v u || Nv v u) <= R).
+      { apply wsP_mono. intros u _ H. unfold U1. apply orb_prop in H as [H|H]; unfold Yv, Nv in H;
+          apply existsb_exists in H as [r1 [I1 H]]; apply andb_prop in H as [H _];
+          apply existsb_exists; exists r1; auto. }
+      unfold YES, NO. lia. }
+    (* every second-round root *)
+    assert (H2 : forall r2, In r2 (roots (f0 + 2)) -> noV 1 r2 v < q /\ noV 1 r2 v <= yesV 1 r2 v).
+    { intros r2 I2.
+      assert (Hno : noV 1 r2 v <= NO).
+      { unfold noV, NO. apply wsP_mono. intros u _ Hu. apply voters_obs_elim in Hu as [r1 [I1 [F1 [C1 V1]]]].
+        unfold Nv. apply existsb_exists. exists r1. replace (f0 + N.of_nat 1) with (f0 + 1) in I1 by lia. split; [exact I1|].
+        rewrite V1. rewrite andb_true_r. apply andb_true_intro. split; [apply Nat.eqb_eq; exact C1|].
+        unfold obsable. apply existsb_exists. exists r2. auto. }
+      assert (Hs : q <= yesV 1 r2 v + noV 1 r2 v).
+      { apply obs_quorum_split; [lia|]. replace (f0 + N.of_nat 1 + 1) with (f0 + 2) by lia. exact I2. }
+      assert (H3 : 3 * noV 1 r2 v <= R).
+      { assert (W * (3 * noV 1 r2 v) <= W * R); [|nia]. nia. }
+      lia. }
+    assert (Hall2 : forall r, In r (roots (f0 + N.of_nat 2)) -> vote 2 r v = true).
+    { intros r Hr. rewrite vote_S by lia. apply N.leb_le. apply H2. replace (f0 + 2) with (f0 + N.of_nat 2) by lia. exact Hr. }
+    intros k r D. pose proof D as [Hk [Hr Hq]].
+    destruct (Nat.eq_dec k 1) as [->|Hne].
+    + destruct (H2 r) as [Hlt _]; [replace (f0 + 2) with (f0 + N.of_nat 1 + 1) by lia; exact Hr|]. lia.
+    + assert (Hallk : forall r', In r' (roots (f0 + N.of_nat k)) -> vote k r' v = true).
+      { intros r' Hr'. replace k with (2 + (k - 2))%nat in * by lia. apply (all_vote_from 2 v true); auto. }
+      destruct (all_vote_then_next k v true Hk Hallk r Hr) as [_ [_ Hz]]. lia.
+Qed.
 End Core.
